@@ -145,7 +145,7 @@ theorem toArray_getD' (l : List F) (j : Nat) (d : F) : l.toArray.getD j d = l.ge
 theorem twiddles_getD (ω : F) : ∀ (m : Nat) (w : F) (j : Nat), j < m →
     (twiddles ω m w).toArray.getD j 1 = w * ω ^ j
   | 0, _, _, h => by omega
-  | m + 1, w, 0, _ => by simp [twiddles, toArray_getD']
+  | m + 1, w, 0, _ => by simp [twiddles]
   | m + 1, w, j + 1, h => by
     have := twiddles_getD ω m (w * ω) j (by omega)
     rw [toArray_getD'] at this ⊢
